@@ -23,6 +23,7 @@ RULE = (
     "receives (token.content, first word of the unescaped info, rest) and its sentinel-wrapped result appears verbatim in place of "
     "the escaped body, returning '' equals no callback. Non-trivial = text with >=2 non-text inline tokens / document with a "
     "fence, a soft break or a void tag; distinct by (conf id, source, relation)."
+    " Embedding contexts include the text after / next to an inline block full of unfinished constructs."
 )
 ASSUMPTIONS = ["expected highlight language = first whitespace-separated word of markdown_it.common.utils.unescapeAll(info).strip() (unescaping itself is C09's business)"]
 
